@@ -274,6 +274,8 @@ def _isinstance1(ex, obj, c):
         m = {'int': ty in (TInt, TBool) or (isinstance(ty, TEnum) and ty.intvalued), 'bool': ty is TBool, 'str': ty is TStr or (isinstance(ty, TEnum) and all(isinstance(x, str) for x in ty.values) and _is_strenum(ex, ty)),
              'float': ty is TFloat, 'tuple': isinstance(ty, (TTuple, TRec)), 'list': isinstance(ty, TSeq), 'type(None)': ty is TNone}
         if tn in m: return z3.BoolVal(bool(m[tn]))
+        if isinstance(ty, TRef) and ty.universal and '.' in tn:      # a class defined outside reach (compiled module): an uninterpreted predicate on opaque objects
+            return z3.Function('isinstance_' + tn.split('.')[-1], sort_of(ty), z3.BoolSort())(obj.t)
         raise Unsupported('isinstance(_, %s)' % tn)
     if isinstance(c, E.ExcClass):
         if ty is TExc: return z3.BoolVal(ex.exc_isinstance(obj.t.cls, c.name))
